@@ -574,6 +574,14 @@ func OddGenesis() Spec {
 			panic("odd genesis: B's balance row of b1 not found")
 		}
 		store("regen.ecocredit.v1.BatchBalance", nil, bal, 0)
+		// (2b) the sealed batch b2 has a cancelled amount with one decimal place more than the precision
+		_, sup := load("regen.ecocredit.v1.BatchSupply")
+		for _, r := range sup {
+			if r["batch_key"] == "2" {
+				r["cancelled_amount"] = "0.1234567"
+			}
+		}
+		store("regen.ecocredit.v1.BatchSupply", nil, sup, 0)
 		// (3) the carbon basket NCT also lists the class BIO01
 		_, bc := load("regen.ecocredit.basket.v1.BasketClass")
 		store("regen.ecocredit.basket.v1.BasketClass", nil, append(bc, map[string]interface{}{"basket_id": "1", "class_id": "BIO01"}), 0)
@@ -584,6 +592,7 @@ func OddGenesis() Spec {
 		fix(Send(B, C, OddBatch, "1", "0")),
 		fix(Put(B, NCT, BC(BioBatch, "1"))),
 		fix(Put(B, NCT, BC(B1, "1"))),
+		fix(Cancel(C, B2, "0.5")), // b2's cancelled amount is over-precise: the handler refuses to add to it
 		Buy(D, "order-with-fractional-ask", BuySpec{Seller: B, K: 3, Qty: "0", MaxFee: I64(100)}),
 		fix(Msg("BuyDirect(D,order9,0.5@11)", MkBuyMsg(D, 9, "0.5", coin("uregen", 11), true))),
 		fix(Msg("BuyDirect(D,order9,0.5@10)", MkBuyMsg(D, 9, "0.5", coin("uregen", 10), true))),
